@@ -59,6 +59,7 @@ PLAN = {
     'hist-thorough': [('full', 2), ('core', 3), ('twin', 3)],
     'small-quick': [('full', 2), ('core', 3)],
     'small-thorough': [('full', 3), ('core', 4)],
+    'ws-thorough': [('full', 2), ('core', 4)],
 }
 NSHARDS = 64
 
